@@ -1015,3 +1015,58 @@ mut("c15-no-reply-on-accept", ["C15"], [(PB, '''			transactions[req.tx.TxHash()]
 			req.errChan <- nil
 ''', '''			transactions[req.tx.TxHash()] = req.tx
 ''')], ["C15.G1"])
+
+# ---- C19 ----
+mut("c19-event-before-write", ["C19"], [(BM, '''	// Write the header batch.
+	err = store.WriteHeaders(headerBatch...)
+	if err != nil {
+		return nil, 0, err
+	}
+''', '''	for i, header := range matchingBlockHeaders {
+		b.onBlockConnected(header, startHeight+uint32(i))
+	}
+	// Write the header batch.
+	err = store.WriteHeaders(headerBatch...)
+	if err != nil {
+		return nil, 0, err
+	}
+''')], ["C19.O1"])
+mut("c19-wrong-new-tip", ["C19"], [(BM, '''		b.onBlockDisconnected(
+			*header, headerHeight, *prevHeader,
+		)''', '''		_ = prevHeader
+		b.onBlockDisconnected(
+			*header, headerHeight, *header,
+		)''')], ["C19.O2"])
+mut("c19-direct-emit", ["C19"], [(BM, '''	b.newHeadersMtx.Lock()
+	b.headerTip = uint32(finalHeight)''', '''	b.onBlockConnected(*msg.Headers[0], uint32(finalHeight))
+	b.newHeadersMtx.Lock()
+	b.headerTip = uint32(finalHeight)''')], ["C19.W1"])
+mut("c19-rollback-stale-mirror", ["C19"], [(BM, '''			b.newFilterHeadersMtx.Lock()
+			b.filterHeaderTip = regHeight
+			b.filterHeaderTipHash = *newTip
+			b.newFilterHeadersMtx.Unlock()
+''', '')], ["C19.O3"])
+mut("c19-mirror-without-lock", ["C19"], [(BM, '''			b.newFilterHeadersMtx.Lock()
+			b.filterHeaderTip = regHeight
+			b.filterHeaderTipHash = *newTip
+			b.newFilterHeadersMtx.Unlock()
+''', '''			b.filterHeaderTip = regHeight
+			b.filterHeaderTipHash = *newTip
+''')], ["C19.O3"])
+mut("c19-height-off-by-one", ["C19"], [(BM, '''		headerHeight := startHeight + uint32(i)
+		b.fltrHeaderProgessLogger''', '''		headerHeight := startHeight + uint32(i) + 1
+		b.fltrHeaderProgessLogger''')], ["C19.O1"])
+mut("c19-backlog-skips-first", ["C19"], [(BM, "	for i := height + 1; i <= bestHeight; i++ {", "	for i := height + 2; i <= bestHeight; i++ {")], ["C19.V1"])
+mut("c19-disconnect-before-rollback", ["C19"], [(BM, '''		bs, err = b.cfg.BlockHeaders.RollbackLastBlock()
+		if err != nil {
+			return err
+		}
+''', '''		bs, err = b.cfg.BlockHeaders.RollbackLastBlock()
+		if err != nil {
+			log.Errorf("rollback: %v", err)
+		}
+''')], ["C19.O2"])
+mut("c19-emit-no-quit", ["C19"], [(BM, '''	select {
+	case b.blockNtfnChan <- blockntfns.NewBlockConnected(header, height):
+	case <-b.quit:
+	}''', '''	b.blockNtfnChan <- blockntfns.NewBlockConnected(header, height)''')], ["C19.W1"])
